@@ -54,10 +54,13 @@ CLAIMS = {
         "spawned and not finished, at every point), C09_observed, C09_parent, C09_cancel_local, C09_cancel_only_requested "
         "(teardown never cancels), C09_wait, C09_teardown_waits, C09_handler_once, C09_handler_verdict, C09_no_handler, "
         "C09_outcome, C09_cancelled_exception (the exception of a task that was cancelled through its handle and whose "
-        "clean-up raises goes to the handler or propagates like any other), C09_handles_sound. Correspondence (mode T): "
+        "clean-up raises goes to the handler or propagates like any other), C09_handles_sound; tasks that fail before "
+        "task_status.started() (`failsBeforeStarted`, label startFailed): C09_start_failure_contained, _handler (the handler is "
+        "consulted, nothing escapes into the task group), C09_start_failed (the caller of start_task learns of it, the handle "
+        "is gone), C09_start_failure_only. Correspondence (mode T): "
         "timed scripts of start_task / start_task_soon from the owner, a nested context, another service task and other "
-        "background tasks (incl. tasks cancelled in the instant they are spawned, tasks that call started() late, tasks "
-        "whose clean-up raises), cancel / wait_finished / all_task_handles() sampled at x.5 ticks, handler absent / truthy "
+        "background tasks (incl. tasks cancelled in the instant they are spawned, tasks that call started() late or fail before that or whose caller gives up "
+        "waiting for it, tasks whose clean-up raises), cancel / wait_finished / all_task_handles() sampled at x.5 ticks, handler absent / truthy "
         "/ falsy / a callable object, on both back-ends under a virtual clock; the observed trace must be a run of the "
         "model.",
         "BaseExceptions escaping a task bypass the handler (by design, not judged). After an exception took the application "
